@@ -30,6 +30,23 @@ def main():
         ok = mod.replay(ctx, case)
         print("REPLAY", "property holds on this case" if ok else "property FAILS on this case")
         sys.exit(0 if ok else 1)
+    # watchdog: a change that makes the implementation hang or allocate without bound (seeded change C15e did, with a huge
+    # max_patience) must end as a reported violation, not as a check that never returns
+    import threading
+
+    limit = float(os.environ.get("VERIF_WATCHDOG", "2700" if a.tier == "quick" else "28800"))
+
+    def _expired():
+        try:
+            ctx.violation(sig="watchdog", what=f"the check did not finish within {limit:.0f} s (the implementation hangs or the run is far slower than on the "
+                          f"unchanged tree); units started so far: {list(ctx.units)}", case={"limit_seconds": limit}, found_input=False, broken="termination of the check")
+            ctx.finish(level="proof")
+        finally:
+            os._exit(1)
+
+    wd = threading.Timer(limit, _expired)
+    wd.daemon = True
+    wd.start()
     try:
         built = True if a.no_build else ctx.build(getattr(mod, 'GROUPS', ()), getattr(mod, 'EXTRA_PROPS', ()))
         ctx.scan_forbidden()
